@@ -441,12 +441,22 @@ class CountingList(list):
 NAMES = ["A", "B", "C", "D", "E", "Ab", "a", "Z", "B1"]
 
 
+def run_real_sort_models(imp, ms, fuel):
+    """class names in the order the real pass leaves them, or "none" when it is still sweeping after `fuel` sweeps"""
+    fn = _real().pbase.Parser._Parser__sort_models
+    stubs = CountingList([Stub("", frozenset(), [_Base(None, "BaseModel")] + [_Base(_Ref(""), b) for b in bs], nm) for nm, bs in ms], fuel)
+    try:
+        with watchdog(10):
+            fn(SimpleNamespace(keep_model_order=True), stubs, {"m": set(imp)})
+        return [s.class_name for s in list.__iter__(stubs)]
+    except Hang:
+        return "none"
+
+
 def campaign_sort_models(ck: Check, n_cases: int) -> None:
     camp = ck.campaign("Model.Sort.sortModels vs Parser._Parser__sort_models (keep_model_order)")
     t0 = time.time()
     rng = ck.rng.fork("sortmodels")
-    R = _real()
-    fn = R.pbase.Parser._Parser__sort_models
     cases = []
     for _ in range(n_cases):
         n = rng.range(0, 6)
@@ -472,13 +482,7 @@ def campaign_sort_models(ck: Check, n_cases: int) -> None:
     for (imp, ms), rep in zip(cases, replies):
         camp.evaluations += 1
         model = "none" if rep == "none" else [unhx(t) for t in rep[4:-1].split()] if rep.startswith("ok (") else rep
-        stubs = CountingList([Stub("", frozenset(), [_Base(None, "BaseModel")] + [_Base(_Ref(""), b) for b in bs], nm) for nm, bs in ms], fuel)
-        try:
-            with watchdog(10):
-                fn(SimpleNamespace(keep_model_order=True), stubs, {"m": set(imp)})
-            impl = [s.class_name for s in list.__iter__(stubs)]
-        except Hang:
-            impl = "none"
+        impl = run_real_sort_models(imp, ms, fuel)
         camp.hit(f"n={len(ms)}")
         camp.hit("loops-forever(fuel)" if impl == "none" else "terminates")
         if len(ms) > 1:
@@ -799,7 +803,12 @@ def replay(ck: Check, path: str) -> int:
     elif target == "e2e-modular":
         run_modular_case(ck, camp, inp["graph"], {int(k): v for k, v in inp["prefix"].items()})
     elif target == "__sort_models":
-        print("replay of __sort_models inputs: run campaign_sort_models with the stored models", inp)
+        ms = [(nm, list(bs)) for nm, bs in inp["models"]]
+        impl = run_real_sort_models(inp["imported"], ms, 60)
+        print("__sort_models ->", impl)
+        names = {nm for nm, _ in ms} | set(inp["imported"])
+        if impl == "none" and all(b in names for _, bs in ms for b in bs) and not name_cycle(ms):
+            ck.fail({"oracle": "sort_models", "mechanism": "hang"}, inp, "__sort_models keeps swapping although every base class is available and inheritance is acyclic")
     for f in ck.failures:
         print("REPLAY-FAILS:", json.dumps(f.classification), f.observed[:300])
     if not ck.failures:
